@@ -92,6 +92,9 @@ pub mod tokio {
     }
 }
 
+#[cfg(libp2p_verif)]
+mod verif;
+
 use std::{
     error, fmt, io, iter,
     net::{Ipv4Addr, Ipv6Addr},
